@@ -503,3 +503,112 @@ pub fn cfg_by_name(name: &str) -> PairCfg {
         .find(|c| c.client.name == name)
         .unwrap_or_else(|| crate::report::machinery(&format!("unknown cfg {name}")))
 }
+
+/// A scenario for deviation-bounded exploration
+#[derive(Clone)]
+pub struct ECase {
+    pub name: String,
+    pub cfg: PairCfg,
+    pub cp: Plan,
+    pub sp: Plan,
+    pub script: Vec<(u64, Op)>,
+    pub window: (u64, u64),
+    pub max_steps: u64,
+    pub horizon: Duration,
+}
+
+pub fn ecase_pair(base: Instant, c: &ECase, devs: &crate::explore::Devs, alts: &[crate::sim::Fate], keep_data: bool) -> (StdPair, bool) {
+    let (cp, sp) = (c.cp.clone(), c.sp.clone());
+    let mut p = Pair::new_pre(
+        base,
+        &c.cfg,
+        StdApp::new(Side::Client, cp),
+        Box::new(move |_, _| StdApp::new(Side::Server, sp.clone())),
+        |w| {
+            w.fates = crate::explore::fates_of(devs, alts);
+            w.keep_data = keep_data;
+        },
+    );
+    let done = drive(&mut p, &c.script, c.max_steps, c.horizon);
+    (p, done)
+}
+
+/// Run E2 over a list of cases with a per-execution oracle; fills the report.
+pub fn e2_cases(
+    rep: &mut crate::report::Report,
+    check: &str,
+    cases: &[ECase],
+    k: usize,
+    alts: &[crate::sim::Fate],
+    dl: Instant,
+    keep_data: bool,
+    oracle: &(dyn Fn(&StdPair, bool) -> (Vec<(String, String)>, u64) + Sync),
+) -> (u64, u64) {
+    use crate::explore::{e2, guarded, Devs, RunOut};
+    let base = Instant::now();
+    let mut total = 0u64;
+    let mut notes = 0u64;
+    let mut per_case = vec![];
+    let mut capped_any = false;
+    for c in cases {
+        let r = e2(
+            |d: &Devs| match guarded(|| {
+                let (p, done) = ecase_pair(base, c, d, alts, keep_data);
+                let (v, note) = oracle(&p, done);
+                RunOut { points: p.w.emitted, trace: p.w.trace_hash(), violation: v.into_iter().next(), note }
+            }) {
+                Ok(o) => o,
+                Err(e) => RunOut { points: 0, trace: 0, violation: Some(("panic".into(), format!("panic: {e}"))), note: 0 },
+            },
+            c.window,
+            alts.len() as u16,
+            k,
+            dl,
+        );
+        total += r.executions;
+        capped_any |= r.capped;
+        let b = r.outs[0].1.trace;
+        for (d, o) in &r.outs {
+            rep.evaluations += 1;
+            notes += o.note;
+            if o.trace != b {
+                rep.distinct.insert(o.trace);
+            }
+            if let Some((sig, what)) = &o.violation {
+                rep.violation(crate::report::Violation {
+                    signature: sig.clone(),
+                    what: format!("case={} deviations={d:?}: {what}", c.name),
+                    replay: serde_json::json!({"check": check, "case": c.name, "devs": d, "alts_len": alts.len()}),
+                });
+            }
+        }
+        per_case.push(serde_json::json!({"case": c.name, "executions": r.executions, "per_k": r.per_k, "k_completed": r.k_completed}));
+        if r.capped {
+            break;
+        }
+    }
+    if capped_any {
+        rep.exhaustive = false;
+    }
+    rep.part("e2", serde_json::json!({"k": k, "cases": cases.len(), "executions": total, "capped": capped_any, "alts": format!("{alts:?}"), "per_case": per_case}));
+    (total, notes)
+}
+
+pub fn replay_ecase(cases: &[ECase], args: &crate::report::Args, _alts: &[crate::sim::Fate], oracle: &dyn Fn(&StdPair, bool) -> (Vec<(String, String)>, u64)) -> ! {
+    let path = args.replay.as_ref().unwrap();
+    let v: serde_json::Value = serde_json::from_str(&std::fs::read_to_string(path).unwrap_or_else(|e| crate::report::machinery(&format!("{e}")))).unwrap_or_else(|e| crate::report::machinery(&format!("{e}")));
+    let r = &v["replay"];
+    let name = r["case"].as_str().unwrap_or("");
+    let c = cases.iter().find(|c| c.name == name).unwrap_or_else(|| crate::report::machinery("unknown case"));
+    let devs: crate::explore::Devs = r["devs"].as_array().map(|d| d.iter().map(|x| (x[0].as_u64().unwrap(), x[1].as_u64().unwrap() as u16)).collect()).unwrap_or_default();
+    let alts: &[crate::sim::Fate] = if r["alts_len"].as_u64() == Some(3) { &crate::explore::FATE_ALTS3 } else { &crate::explore::FATE_ALTS };
+    let (p, done) = ecase_pair(Instant::now(), c, &devs, alts, true);
+    print!("{}", crate::trace::dump(&p.w));
+    println!("done={done} oracle={:?}", oracle(&p, done));
+    println!("client obs: {:?}", p.client().app.obs);
+    if let Some(s) = p.server() {
+        println!("server obs: {:?}", s.app.obs);
+    }
+    println!("{}", diagnose(&p));
+    std::process::exit(0)
+}
